@@ -3528,6 +3528,10 @@ class WaitMatch(Match):
     def convert(self, current_error_handlers: dict):
         sm = self.match_contents.convert(current_error_handlers)
         for state, trans in sm.transitions_pointing_to(current_error_handlers[ErrorReasons.NO_MATCH], True):
+            if state not in sm.states:
+                # Reached through an action that leaves the pattern (a break attached to its last transition leads into whatever follows the
+                # loop, which has been built already): not part of what is waited for
+                continue
             trans.to(sm.starting_state).handles_else()  # we make these error handling since that makes semantic sense for the usual use case for a wait node
             if state == sm.starting_state:
                 trans.fallthrough(False).attach(*self.char_actions)
